@@ -89,7 +89,7 @@ class C13(CheckBase):
                    'resource question, not decided here); termination is demanded after EOF',
                    'truncation offsets are enumerated completely inside the sampled window only']
     expected_probes = ['truncations', 'framing_faults', 'xml_mutations', 'doctype', 'bad_coding', 'answered', 'rejected',
-                       'consumer_endpoint', 'provider_endpoint', 'unusual_header_values']
+                       'consumer_endpoint', 'provider_endpoint', 'unusual_header_values', 'liveness_checked', 'notifications_replayed', 'inconsistent_notifications']
     max_steps = 12_000_000
 
     def budget(self, tier):
@@ -116,8 +116,8 @@ class C13(CheckBase):
         # healthy traffic for the corpus
         with worldb.node(worldb.PROVIDER_IP):
             g = W.Gen(random.Random(1), 'tns', validate=True)
-            for _ in range(3):
-                op = g.gen_op(kinds=['metric', 'alert', 'context'])
+            for kinds_ in (['metric'], ['alert'], ['context'], ['descr'], ['descr']):
+                op = g.gen_op(kinds=kinds_)
                 if op:
                     try:
                         W.apply_op(w.mdib, op)
@@ -198,7 +198,74 @@ class C13(CheckBase):
                         d = canon.diff(before, after)
                         ctx.violation('C13.unchanged', label.split('@')[0],
                                       f'{what}: rejected with {resp.status} but provider state changed: {d[:4]}')
+        # duplicate delivery of every notification the consumer received in the healthy session (among them description
+        # modification reports whose repeated 'create' part makes the consumer's handler raise)
+        for addr, raw, m in corpus:
+            if addr == caddr:
+                ctx.probe('notifications_replayed')
+                resp, closed, err = self._send(w, addr, raw, True, False)
+                if resp is None:
+                    ctx.violation('C13.response', 'no-response:replayed-notification',
+                                  f'a notification delivered a second time got no HTTP response (closed={closed}, error={err})')
+        w.settle(3.0)
+        # a notification that is well-formed and schema-valid but inconsistent with the consumer MDIB (next MdibVersion,
+        # states of a descriptor the consumer does not know / a description report that creates what exists already):
+        # the consumer's handler may fail on it - the thread that processes notifications has to survive
+        forged = 0
+        for addr, raw, m in corpus:
+            if addr != caddr or not m.raw_body:
+                continue
+            try:
+                x = etree.fromstring(httpmsg.decode_body(m), parser=etree.XMLParser(resolve_entities=False, no_network=True))
+                rep = x.find('{http://www.w3.org/2003/05/soap-envelope}Body')[0]
+            except Exception:  # noqa: BLE001
+                continue
+            if rep.get('MdibVersion') is None:
+                continue
+            rep.set('MdibVersion', str((cm.mdib_version or 0) + 1))
+            if 'DescriptionModificationReport' not in rep.tag:
+                for el in rep.iter():
+                    if el.get('DescriptorHandle') is not None and not el.tag.endswith('Descriptor'):
+                        el.set('DescriptorHandle', 'no.such.descriptor')
+                        break
+            forged += 1
+            ctx.probe('inconsistent_notifications')
+            self._send(w, addr, rebuild(m, body=etree.tostring(x, xml_declaration=True, encoding='UTF-8'),
+                                        headers={'Content-Encoding': None}), True, False)
+            w.settle(2.0)
+        worker = getattr(c._services_dispatcher, '_worker', None)
+        if worker is not None and not worker.is_alive():
+            ctx.violation('C13.escape', 'notification-worker-thread-ended',
+                          'the thread of the consumer that processes queued notifications has ended: later notifications '
+                          'are answered but never processed')
         ctx.nontrivial = stats['answered'] >= 20
+        # after all of this both parties still work: a fresh commit of the provider reaches the consumer MDIB
+        # (request handling that 'terminates' by killing the thread that processes notifications does not count)
+        from decimal import Decimal
+        with worldb.node(worldb.PROVIDER_IP):
+            try:
+                with w.mdib.metric_state_transaction() as mgr:
+                    st = mgr.get_state('numeric.ch0.vmd0')
+                    if st.MetricValue is None:
+                        st.mk_metric_value()
+                    st.MetricValue.Value = Decimal('4711.5')
+            except Exception as ex:  # noqa: BLE001
+                import traceback
+                subs_ = [(o.notify_to_address, getattr(o, 'end_to_address', None)) for m_ in mgrs.values()
+                         for o in m_._subscriptions.objects]
+                ctx.violation('C13.unchanged', f'accepted-request-poisons-later-commits:{type(ex).__name__}',
+                              f'a request of the malformed traffic was accepted and left the provider in a state in which '
+                              f'an ordinary application transaction raises; subscriptions (NotifyTo, EndTo): {subs_}\n'
+                              f'{traceback.format_exc()[-1200:]}')
+        w.settle(5.0)
+        ctx.probe('liveness_checked')
+        with s.no_preempt():
+            cst = cm.states.descriptor_handle.get_one('numeric.ch0.vmd0', allow_none=True)
+            val = getattr(getattr(cst, 'MetricValue', None), 'Value', None)
+        if val != Decimal('4711.5') and cm._state.name == 'initialized' and not forged:
+            ctx.violation('C13.response', 'consumer-no-longer-processes-notifications',
+                          f'after the malformed traffic a fresh provider commit (MdibVersion {w.mdib.mdib_version}) never '
+                          f'reached the consumer MDIB (consumer at {cm.mdib_version}, value {val})')
         with s.no_preempt():
             txt = repr(canon.snap(w.mdib))
             if CANARY in txt:
@@ -349,7 +416,7 @@ class C13(CheckBase):
 
     # ------------------------------------------------------------------
     def _cases(self, rng, raw, m, window, ctx, trunc_cap=260):
-        cases = []
+        cases = [('replay-unchanged', raw, True, False)]  # the very same message once more (duplicate delivery)
         head_end = raw.find(b'\r\n\r\n') + 4
         # (a) truncation at every offset of a window: the whole header part is small enough; the body window is sampled
         offs = set(range(0, min(head_end, 600)))
@@ -399,10 +466,11 @@ class C13(CheckBase):
         weird = [('Accept-Encoding', v) for v in ('gzip;q=high', 'gzip;q=', 'identity;q=1.0.0', ';q=1', 'gzip;;', ',,,',
                                                    'gzip; q = 0.5 ; x=y', 'gzip;q=-1', 'gzip;q=1e400', '*;q=abc, x-lz4',
                                                    'a,' * 800)]
+        weird += [('Host', v) for v in ('10.0.0.1:http', '10.0.0.1:999990', '[::1', '', 'a b', '10.0.0.1:', ':80')]
         weird += [('Content-Type', 'application/soap+xml; charset=no-such-charset'), ('Content-Type', ''),
                   ('Content-Encoding', 'identity'), ('Content-Encoding', ' '), ('Connection', 'close, keep-alive, x'),
                   ('Expect', '100-continue'), ('Content-Length', f'+{len(m.raw_body)}'), ('Accept', 'text/*;q=x')]
-        for name, v in rng.sample(weird, 7):
+        for name, v in rng.sample(weird, 9):
             cases.append((f'header:{name}:{v[:16]}', rebuild(m, headers={name: v}), True, False))
             ctx.probe('unusual_header_values')
         # wrong path / content type / method
